@@ -371,7 +371,8 @@ def r11_5(ctx):
             if name == "detach":
                 return nf.linear("DETACH", (), Rat.lift(recv))
             return NotImplemented
-    ctx_obj = Obj("ctx", attrs={"save_for_backward": Intrinsic("save", lambda it, a, k, n, f: None)})
+    from .c10 import make_ctx
+    ctx_obj = make_ctx([], [])
     solver = Obj("solver", attrs={"integrate": Intrinsic("integrate", lambda it, a, k, n, f: (seen.append(tuple(a)) or
                                                                                              (nf.sym("YS"), (nf.sym("E1"),))))})
     it = Interp(model, H())
